@@ -119,7 +119,7 @@ m("C18", "C18-swap-copies", "R18-swap:Swap", ("table.go", "lv.Values[i], lv.Valu
 m("C18", "C18-less-args-swapped", "R18-swap:Less:comparator", ("table.go", "\t\tlv.L.Push(lv.Values[i])\n\t\tlv.L.Push(lv.Values[j])", "\t\tlv.L.Push(lv.Values[j])\n\t\tlv.L.Push(lv.Values[i])"))
 m("C18", "C18-remove-default-first", "R18-delegate:tableRemove:default-last", ("tablelib.go", "\tpos := L.OptInt(2, n)\n", "\tpos := L.OptInt(2, 1)\n"))
 # ---- C19
-m("C19", "C19-read-no-closed-guard", "R19-closed:fileRead", ("iolib.go", "\tif n := fileIsReadable(L, file); n != 0 {\n\t\treturn n\n\t}\n\terrorIfFileIsClosed(L, file)\n\tif L.GetTop() == idx-1 {", "\tif n := fileIsReadable(L, file); n != 0 {\n\t\treturn n\n\t}\n\tif L.GetTop() == idx-1 {"))
+m("C19", "C19-read-no-closed-guard", "R19-closed:fileRead", ("iolib.go", "\terrorIfFileIsClosed(L, file)\n\tif n := fileIsReadable(L, file); n != 0 {\n\t\treturn n\n\t}\n\tif L.GetTop() == idx-1 {", "\tif n := fileIsReadable(L, file); n != 0 {\n\t\treturn n\n\t}\n\tif L.GetTop() == idx-1 {"))
 m("C19", "C19-write-error-exit-keeps-buffer", "R19-reconcile:fileWriteAux", ("iolib.go", "errreturn:\n\n\tfile.AbandonReadBuffer()\n\tL.Push(LNil)", "errreturn:\n\n\tL.Push(LNil)"))
 m("C19", "C19-w-without-trunc", "R19-modes:mode:w", ("iolib.go", "\tcase \"w\", \"wb\":\n\t\tmode = os.O_WRONLY | os.O_TRUNC | os.O_CREATE", "\tcase \"w\", \"wb\":\n\t\tmode = os.O_WRONLY | os.O_CREATE"))
 m("C19", "C19-seek-keeps-buffer", "R19-reconcile:fileSeek", ("iolib.go", "\terr = file.AbandonReadBuffer()\n\tif err != nil {\n\t\tgoto errreturn\n\t}\n\n\tpos, err = file.fp.Seek", "\tpos, err = file.fp.Seek"))
@@ -214,7 +214,8 @@ m("C06", "C06-status-direct-parent-only", "R06-guard:Status:normal-walks-resumer
 
 m("C06", "C06-resume-nesting-unbounded", "R06-guard:coResume:nesting-bounded", ("coroutinelib.go", "\tif depth >= maxResumeDepth {\n\t\t// every nested resume runs on the Go stack of its resumer\n\t\tL.RaiseError(\"C stack overflow\")\n\t}\n", "\t_ = depth\n"))
 
-m("C11", "C11-thread-context-from-creator", "R11-threadctx:NewThread:context-from-main-thread", ("state.go", "\t\tthread.ctx, f = context.WithCancel(base)", "\t\t_ = base\n\t\tthread.ctx, f = context.WithCancel(ls.ctx)"))
+m("C11", "C11-thread-context-from-creator", "R11-threadctx:NewThread:context-from-the-creators-base", ("state.go", "\t\tthread.ctx, f = context.WithCancel(base)", "\t\tthread.ctx, f = context.WithCancel(ls.ctx)"))
+m("C11", "C11-setcontext-keeps-old-base", "R11-threadctx:SetContext:attached-context-is-its-own-base", ("state.go", "\tls.ctx = ctx\n\tls.ctxParent = nil\n}", "\tls.ctx = ctx\n}"))
 
 m("C01", "C01-constructor-open-ended-for-keyed-call", "R01-constructor:compileTableExpr:open-ended-only-for-positional-last", ("compile.go", "\t\t\tb := pending\n\t\t\tif lastvararg {", "\t\t\tb := pending\n\t\t\tif islast && isVarArgReturnExpr(field.Value) {"))
 m("C01", "C01-constructor-flush-by-total-count", "R01-constructor:compileTableExpr:pending-reset-by-flush", ("compile.go", "\t\tif pending == FieldsPerFlush || (islast && pending > 0) || lastvararg {", "\t\tif (arraycount != 0 && arraycount%FieldsPerFlush == 0) || (islast && pending > 0) || lastvararg {"), ("compile.go", "\t\t\tpending = 0\n", "\t\t\tif islast {\n\t\t\t\tpending = 0\n\t\t\t}\n"))
@@ -249,5 +250,22 @@ m("C19", "C19-output-no-trunc", "R19-buffers:ioOutput:opens-like-fopen-w", ("iol
 m("C19", "C19-negative-read-count", "R19-buffers:fileReadAux:count-not-negative", ("iolib.go", "\t\t\tif size < 0 {\n\t\t\t\tL.ArgError(i, \"invalid count\")\n\t\t\t}\n", ""))
 m("C19", "C19-readline-eof-with-data", "R19-eofdata:readBufioLine:eof-only-when-empty", ("utils.go", "\tiseof := len(result) == 0 && err == io.EOF\n", "\tiseof := err == io.EOF\n"))
 
+
+m("C10", "C10-checkint-strict", "R10-argtypes:CheckInt:accepts", ("auxlib.go", "func (ls *LState) CheckInt(n int) int {\n\tif num, ok := argNumber(ls.Get(n)); ok {\n\t\treturn int(num)\n\t}", "func (ls *LState) CheckInt(n int) int {\n\tif num, ok := ls.Get(n).(LNumber); ok {\n\t\treturn int(num)\n\t}"))
+m("C15", "C15-optint-strict", "R10-argtypes:OptInt:accepts", ("auxlib.go", "\tif num, ok := argNumber(v); ok {\n\t\treturn int(num)\n\t}", "\tif num, ok := v.(LNumber); ok {\n\t\treturn int(num)\n\t}"))
+
+m("C13", "C13-random-from-process-wide-generator", "R13-globals:math/rand:process-wide-generator-not-used-at-run-time", ("mathlib.go", "\t\tL.Push(LNumber(rng.Float64()))", "\t\t_ = rng\n\t\tL.Push(LNumber(rand.Float64()))"))
+
+m("C12", "C12-segment-index-16-bits", "R12-full:segIdx:wide-enough-for-any-CallStackSize", ("state.go", "type segIdx uint32", "type segIdx uint16"))
+
+m("C06", "C06-current-thread-set-before-argument-transfer", "R06-guard:coResume:becomes-current-after-the-last-raising-step", ("coroutinelib.go", "\tth.Parent = L\n\tL.G.CurrentThread = th\n\ttop := L.GetTop()", "\ttop := L.GetTop()"), ("coroutinelib.go", "\t// handing the arguments over and setting the first frame up can fail (registry overflow): the\n", "\tth.Parent = L\n\tL.G.CurrentThread = th\n\t// handing the arguments over and setting the first frame up can fail (registry overflow): the\n"))
+
+m("C08", "C08-statement-nesting-unbounded", "R08-terminate:compile:recursion-depth-bounded", ("compile.go", "\tif context.exprDepth > maxExprDepth {\n\t\traiseCompileError(context, sline(stmt), \"chunk has too many syntax levels\")\n\t}\n", ""))
+m("C08", "C08-condition-nesting-unbounded", "R08-terminate:compile:recursion-depth-bounded", ("compile.go", "hasnextcond bool) { // {{{\n\tcontext.exprDepth++\n\tdefer leaveExpr(context)\n\tif context.exprDepth > maxExprDepth {\n\t\traiseCompileError(context, sline(expr), \"chunk has too many syntax levels\")\n\t}\n", "hasnextcond bool) { // {{{\n"))
+
+m("C01", "C01-constant-pool-merges-signed-zero", "R01-alloc:ConstIndex:zero-constants-distinguished-by-sign", ("compile.go", "\t\t\tif n, ok := value.(LNumber); ok && n == 0 && math.Signbit(float64(n)) != math.Signbit(float64(lv.(LNumber))) {\n\t\t\t\t// 0 and -0 compare equal but are different constants (1/-0 is -inf)\n\t\t\t\tcontinue\n\t\t\t}\n", ""))
+m("C17", "C17-lost-level-resolves-to-bottom-frame", "R17-where:GetStack:frame-only-at-the-exact-level", ("state.go", "\t}\n\t// a negative level falls among frames that tail calls have replaced: nothing is known about them\n\treturn &Debug{}, false", "\t} else if level < 0 && ls.stack.Sp() > 0 {\n\t\treturn &Debug{frame: ls.stack.At(0)}, true\n\t}\n\treturn &Debug{}, false"))
+
+m("C19", "C19-kind-test-before-closed-test", "R19-closed:fileWriteAux:closed-test-before-any-answer", ("iolib.go", "func fileWriteAux(L *LState, file *lFile, idx int) int {\n\terrorIfFileIsClosed(L, file)\n\tif n := fileIsWritable(L, file); n != 0 {\n\t\treturn n\n\t}\n", "func fileWriteAux(L *LState, file *lFile, idx int) int {\n\tif n := fileIsWritable(L, file); n != 0 {\n\t\treturn n\n\t}\n\terrorIfFileIsClosed(L, file)\n"))
 if __name__ == "__main__":
     main()
